@@ -25,10 +25,50 @@ def potential_cycles(may_call):
     return {i for i in range(n) if i in reach[i]}
 
 
+def tail_if(g, cx, ret):
+    """An If/Else in tail position of a routine whose arms return / fall through in every combination
+    (has_return bookkeeping decides whether the compiler appends the closing retsub)."""
+    o = cx.operand()
+
+    def work():
+        return g.S_leaf(cx.sub())
+
+    def retn():
+        if ret == "N":
+            return ["return", None]
+        return ["return", g.U(o) if ret == "U" else g.B(o)]
+
+    def val():
+        return g.U(cx.sub()) if ret == "U" else g.B(cx.sub())
+
+    c = g.cond_expr(o)
+    style = g.pick(["fn", "then"])
+    if ret == "N":
+        k = g.i(0, 4)
+        if k == 0:
+            return ["if", c, work(), retn(), style]
+        if k == 1:
+            return ["if", c, retn(), work(), style]
+        if k == 2:
+            return ["if", c, retn(), retn(), style]
+        if k == 3:
+            return ["if", c, ["seq", [work(), retn()]], work(), style]
+        return ["if", c, work(), ["seq", [work(), retn()]], style]
+    k = g.i(0, 3)
+    if k == 0:
+        return ["if", c, retn(), retn(), style]
+    if k == 1:
+        return ["if", c, val(), val(), style]
+    if k == 2:
+        return ["seq", [["if", c, retn(), None, style], val()]]
+    return ["if", c, ["seq", [work(), retn()]], ["seq", [work(), retn()]], style]
+
+
 @st.composite
 def sub_recipe(draw, max_budget=60, opts=None, min_level=4):
     opts = dict(opts or {})
     opts.setdefault("calls", True)
+    opts.setdefault("abi_vars", 2)
     mode = draw(st.sampled_from(["app", "app", "app", "sig"]))
     level = draw(st.sampled_from([v for v in [4, 5, 6, 6, 7, 8, 8, 10] if v >= min_level]))
     budget = draw(st.integers(8, max_budget))
@@ -89,6 +129,10 @@ def sub_recipe(draw, max_budget=60, opts=None, min_level=4):
                     stmts.append(g.S(cx.sub()))
         if r["ret"] == "N":
             body_items = stmts
+            if g.chance(4):
+                body_items = stmts + [tail_if(g, cx, "N")]
+        elif g.chance(2):
+            body_items = stmts + [tail_if(g, cx, r["ret"])]
         else:
             final = g.U(cx.sub()) if r["ret"] == "U" else g.B(cx.sub())
             if g.chance(3):
